@@ -615,10 +615,12 @@ class _Slots:
             _slot_sem.release()
 
 
-def run_cbmc(unit, gb, extra, timeout, mem_gb):
+def run_cbmc(unit, gb, extra, timeout, mem_gb, cancel=None):
     with _Slots(getattr(unit, 'weight', 1)):
+        if cancel is not None and cancel.is_set():     # decided while this query was waiting for its slot
+            return (None, '', 'skipped: an earlier obligation of this unit stayed undecided', 0.0)
         r = _run_cbmc(unit, gb, extra, timeout, mem_gb)
-    if r[0] != 0 and r[0] != 10 and not r[1].strip().endswith(']'):
+    if r[0] != 0 and r[0] != 10 and not r[1].strip().endswith(']') and not r[2].startswith('TIMEOUT'):
         # killed (memory) or truncated output: one retry with the machine to itself
         with _Slots(_SLOTS):
             r = _run_cbmc(unit, gb, extra, timeout, max(mem_gb, 40))
@@ -784,7 +786,7 @@ def check_unit(ast, unit, registry, wd, variant=None):
             ex = []
             for pn in g:
                 ex += ['--property', pn]
-            out = run_cbmc(unit, gb, ex, unit.timeout, unit.mem_gb)
+            out = run_cbmc(unit, gb, ex, unit.timeout, unit.mem_gb, cancel=gave_up)
             if parse_json_ui(out[1])[0] is None:
                 gave_up.set()        # timeout / out of memory: do not spend the same time on every remaining obligation of the unit
             return out
